@@ -19,6 +19,9 @@ PAIRS = {
     # name: (fixed, mobile, mobile edges)
     'p1x1_coincident': ([[0.0, 0.0, 0.0]], [[0.0, 0.0, 0.0]], []),
     'p1x1_apart': ([[0.0, 0.0, 0.0]], [[0.21, -0.13, 0.08]], []),
+    # 30.3 default translation steps (0.3 * TRANS[0] each) away: thirty consecutive new lowest measures before the first
+    # step without one - the total number of steps is many times the budget
+    'p1x1_far': ([[0.0, 0.0, 0.0]], [[-2.727, 1.818, -0.909]], []),
     'p3x2': ([[0.0, 0.0, 0.0], [0.15, 0.02, -0.01], [0.29, -0.05, 0.07]],
              [[0.05, 0.11, 0.0], [0.19, 0.13, 0.04]], [(0, 1)]),
     'p2x3': ([[0.0, 0.0, 0.0], [0.31, 0.02, -0.04]],
@@ -288,7 +291,8 @@ class C09(Check):
     def units(self, tier, seed):
         thorough = tier == 'thorough'
         self.bounds = {'horizon': 7 if thorough else 6, 'deviation_bound_small': 3 if thorough else 2,
-                       'full_product': 'pairs 1x1, n<=2, H 4', 'budgets': [1, 2, 3, 50, 2000]}
+                       'full_product': 'pairs 1x1, n<=2, H 4', 'budgets': [1, 2, 3, 50, 2000],
+                       'long_improving_run': 'pair 30 default steps apart, budgets 1 and 2, H 40, D 1 (total steps >= 30 x budget)'}
         u = []
         for pair, (fx, mb, edges) in PAIRS.items():
             n2 = len(mb)
@@ -296,6 +300,10 @@ class C09(Check):
             subsets = [list(s) for r in range(1, len(kinds_all) + 1)
                        for s in itertools.combinations(kinds_all, r)]
             rsets = ['none', 'one', 'all_fixed'] + (['dup'] if thorough else [])
+            if pair == 'p1x1_far':
+                for n in (1, 2):
+                    u.append({'pair': pair, 'restr': 'none', 'kinds': [0], 'n': n, 'H': 40, 'D': 1})
+                continue
             for restr in rsets:
                 for kinds in subsets:
                     for n in (1, 2, 3):
